@@ -110,6 +110,39 @@ End One.
 
 Definition notmp (w : world) (e : nat) : Prop := forall sd, x_tfile (getx w e sd) = None.
 
+(* objects made by users are never touched by the engine *)
+Definition OwnFrame (g : ghost) (w w' : world) : Prop :=
+  forall sd k cs, g_get k (g_of g sd) = Some cs -> obj_at w' sd k = obj_at w sd k.
+Lemma OwnFrame_refl g w : OwnFrame g w w. Proof. intros sd k cs _. reflexivity. Qed.
+Lemma OwnFrame_trans g w w1 w2 : OwnFrame g w w1 -> OwnFrame g w1 w2 -> OwnFrame g w w2.
+Proof. intros A B sd k cs H. rewrite (B sd k cs H). apply (A sd k cs H). Qed.
+Lemma OwnFrame_prov g w w' : (forall sd, prov_of w' sd = prov_of w sd) -> OwnFrame g w w'.
+Proof. intros H sd k cs _. unfold obj_at. rewrite H. reflexivity. Qed.
+
+Lemma finished_prov g w e en side w' : Inv g w -> (2 <= e)%nat -> nth_error (ents (w_st w)) e = Some en ->
+  AlgoModel.finished w e side = ROk w' -> forall sd, prov_of w' sd = prov_of w sd.
+Proof.
+  intros I He Hn H. pose proof (i_ents _ _ _ I e en He Hn) as EO.
+  destruct (finished_w w e side en (i_cfg _ _ _ I) (i_tape _ _ _ I) Hn (i_csb _ _ _ I)
+              (ent_chg_oid (real_evl w) g w e en EO (negb side)) (ent_force (real_evl w) g w e en EO false) (ent_force (real_evl w) g w e en EO true))
+    as (w2 & en' & H2 & _ & Hprov & _).
+  rewrite H2 in H. injection H as <-. exact Hprov.
+Qed.
+
+Lemma punt_prov g w e en w' : Inv g w -> nth_error (ents (w_st w)) e = Some en -> punt w e = ROk w' ->
+  forall sd, prov_of w' sd = prov_of w sd.
+Proof.
+  intros I Hn H. unfold punt, get_e, lift, get_ent in H. rewrite Hn in H. cbn [rbind] in H.
+  destruct (set_priority_w w (i_cfg _ _ _ I) (i_tape _ _ _ I) e (e_prio en + PRIO_ONE) en Hn) as (w2 & H2 & W2).
+  rewrite H2 in H. injection H as <-. intros sd. apply (weff_prov _ _ _ _ _ sd W2).
+Qed.
+
+Lemma missing_own g w e en s p w2 m en' : x_tfile (getx w e s) = None -> weff (tname_world w e s en p) w2 e en' m -> OwnFrame g w w2.
+Proof.
+  intros Ht We. destruct (tname_world_facts w e s en p Ht) as (_ & _ & TC & _).
+  apply OwnFrame_prov. intros sd. rewrite (weff_prov _ _ _ _ _ sd We). apply TC.
+Qed.
+
 Lemma other_side sd s : sd <> s -> sd = negb s.
 Proof. destruct sd, s; intros H; try reflexivity; contradiction. Qed.
 
@@ -119,7 +152,7 @@ Lemma hash_diff_pres g w e en s w1 cs rs :
   notmp w e -> ex_in_gone (s_ex (gs en s)) = false -> s_hash (gs en s) <> s_shash (gs en s) ->
   maxchg en <= now (w_st w) ->
   handle_hash_diff w e s = ROk (w1, cs, rs) ->
-  exists en1, SCtx g w1 e en1 /\ (forall x sd0, x <> e -> getx w1 x sd0 = getx w x sd0) /\
+  exists en1, SCtx g w1 e en1 /\ (forall x sd0, x <> e -> getx w1 x sd0 = getx w x sd0) /\ OwnFrame g w w1 /\
     match rs with
     | Finished => Just g w1 en1 s
     | Punt => maxchg en1 <= now (w_st w1) /\ notmp w1 e
@@ -132,7 +165,7 @@ Proof.
   destruct (side_obj g w e en SC s o Ho) as (k & ob & n & -> & Hob & Hk2 & FO & Hkf & Hp & Hnok).
   unfold handle_hash_diff in H. unfold get_e, lift, get_ent in H. rewrite Hn in H. cbn [rbind] in H.
   destruct (fo_path _ _ _ _ _ _ _ _ FO) as [Hpn|Hps].
-  - rewrite Hpn in H. injection H as <- <- <-. exists en. split; [exact SC|]. split; [auto|].
+  - rewrite Hpn in H. injection H as <- <- <-. exists en. split; [exact SC|]. split; [auto|]. split; [apply OwnFrame_refl|].
     intros k0 ob0 cs0 Ho0 Hob0 Hpd Hfr Hd Hg0. exfalso.
     assert (k0 = k) by (apply ostr_k_inj; congruence). subst k0. assert (ob0 = ob) by congruence. subst ob0.
     unfold freshP in Hfr. destruct (ProvModel.o_exists ob); [destruct Hfr as (_ & _ & X); congruence|congruence].
@@ -148,8 +181,8 @@ Proof.
       match type of H with context [upload_synced ?W e s] => destruct (upload_synced W e s) as [[[w2 cs2] up]|c] eqn:Eu; [|discriminate] end.
       cbn [rbind] in H.
       destruct (upload_pres g w e en s k ob csg k' ob' n w2 cs2 up SC Hign Ho Hob El Hg Ho' Hob' Hp Hps Hc (Htmp s) Eu)
-        as (Hup & en3 & SC3 & Ho3 & Hpeer3 & Hh3 & Hi3 & Hprov3 & Hgx3 & _).
-      subst up. injection H as <- <- <-. exists en3. split; [exact SC3|]. split; [exact Hgx3|].
+        as (Hup & en3 & SC3 & Ho3 & Hpeer3 & Hh3 & Hi3 & Hprov3 & Hgx3 & _ & Hown3).
+      subst up. injection H as <- <- <-. exists en3. split; [exact SC3|]. split; [exact Hgx3|]. split; [exact Hown3|].
       intros k0 ob0 cs0 Ho0 Hob0 _ _ _ _.
       assert (k0 = k) by (apply ostr_k_inj; congruence). subst k0.
       unfold obj_at in Hob0. rewrite Hprov3 in Hob0. assert (ob0 = ob) by (unfold obj_at in Hob; congruence). subst ob0.
@@ -157,7 +190,7 @@ Proof.
     + destruct (download_dead w e s en _ k ob (i_cfg _ _ _ I) (i_tape _ _ _ I) (i_pwf _ _ _ I s) (Htmp s) Hn Hps Ho Hob El Hkf) as (w2 & Ed & We).
       rewrite Ed in H. cbn [rbind negb] in H. injection H as <- <- <-.
       destruct (missing_pres g w e en s k ob _ w2 SC Ho Hob El (Htmp s) We) as (SC2 & Hm2 & Hnow2 & Hgx2 & Ht2 & Hgo2).
-      eexists. split; [exact SC2|]. split; [exact Hgx2|]. split; [rewrite Hm2; lia|].
+      eexists. split; [exact SC2|]. split; [exact Hgx2|]. split; [apply (missing_own g w e en s _ w2 _ _ (Htmp s) We)|]. split; [rewrite Hm2; lia|].
       intros sd. destruct (Bool.bool_dec sd s) as [->|Hne]; [exact Ht2|]. rewrite (other_side _ _ Hne), Hgo2. apply Htmp.
 Qed.
 
@@ -166,7 +199,7 @@ Lemma creation_pres g w e en s w1 cs rs :
   SCtx g w e en -> e_ign en = INone -> needs_sync (cfg_std 1) s (gs en s) = true ->
   notmp w e -> is_creation (cfg_std 1) en s = true -> maxchg en <= now (w_st w) ->
   handle_path_change_or_creation w e s = ROk (w1, cs, rs) ->
-  exists en1, SCtx g w1 e en1 /\ (forall x sd0, x <> e -> getx w1 x sd0 = getx w x sd0) /\
+  exists en1, SCtx g w1 e en1 /\ (forall x sd0, x <> e -> getx w1 x sd0 = getx w x sd0) /\ OwnFrame g w w1 /\
     match rs with
     | Finished => Just g w1 en1 s /\ e_ign en1 = INone /\ s_hash (gs en1 s) = s_shash (gs en1 s)
     | Punt => maxchg en1 <= now (w_st w1) /\ notmp w1 e
@@ -197,8 +230,8 @@ Proof.
   - rewrite (download_live w e s en _ k ob (i_cfg _ _ _ I) (i_pwf _ _ _ I s) (Htmp s) Hn Hps Ho Hob El Hkf) in H.
     cbn [rbind negb] in H.
     destruct (create_pres g w e en s k ob csg n w1 cs rs SC Hign Ho Hob El Hg Hyn Hp Hnok Hps Hc (Htmp s) H)
-      as (Hrs & en3 & SC3 & Ho3 & Hpeer3 & Hh3 & Hi3 & Hprov3 & Hgx3 & _).
-    subst rs. exists en3. split; [exact SC3|]. split; [exact Hgx3|]. split; [|split; [exact Hi3|exact Hh3]].
+      as (Hrs & en3 & SC3 & Ho3 & Hpeer3 & Hh3 & Hi3 & Hprov3 & Hgx3 & _ & Hown3).
+    subst rs. exists en3. split; [exact SC3|]. split; [exact Hgx3|]. split; [exact Hown3|]. split; [|split; [exact Hi3|exact Hh3]].
     intros k0 ob0 cs0 Ho0 Hob0 _ _ _ _.
     assert (k0 = k) by (apply ostr_k_inj; congruence). subst k0.
     unfold obj_at in Hob0. rewrite Hprov3 in Hob0. assert (ob0 = ob) by (unfold obj_at in Hob; congruence). subst ob0.
@@ -206,7 +239,7 @@ Proof.
   - destruct (download_dead w e s en _ k ob (i_cfg _ _ _ I) (i_tape _ _ _ I) (i_pwf _ _ _ I s) (Htmp s) Hn Hps Ho Hob El Hkf) as (w2 & Ed & We).
     rewrite Ed in H. cbn [rbind negb] in H. injection H as <- <- <-.
     destruct (missing_pres g w e en s k ob _ w2 SC Ho Hob El (Htmp s) We) as (SC2 & Hm2 & Hnow2 & Hgx2 & Ht2 & Hgo2).
-    eexists. split; [exact SC2|]. split; [exact Hgx2|]. split; [rewrite Hm2; lia|].
+    eexists. split; [exact SC2|]. split; [exact Hgx2|]. split; [apply (missing_own g w e en s _ w2 _ _ (Htmp s) We)|]. split; [rewrite Hm2; lia|].
     intros sd. destruct (Bool.bool_dec sd s) as [->|Hne]; [exact Ht2|]. rewrite (other_side _ _ Hne), Hgo2. apply Htmp.
 Qed.
 
@@ -220,7 +253,7 @@ Lemma embrace_pres g w e en s w1 cs rs :
   SCtx g w e en -> e_ign en = INone -> needs_sync (cfg_std 1) s (gs en s) = true ->
   notmp w e -> maxchg en <= now (w_st w) ->
   embrace_change w e s = ROk (w1, cs, rs) ->
-  exists en1, SCtx g w1 e en1 /\ (forall x sd0, x <> e -> getx w1 x sd0 = getx w x sd0) /\
+  exists en1, SCtx g w1 e en1 /\ (forall x sd0, x <> e -> getx w1 x sd0 = getx w x sd0) /\ OwnFrame g w w1 /\
     match rs with
     | Finished => Just g w1 en1 s
     | Punt => maxchg en1 <= now (w_st w1) /\ notmp w1 e
@@ -251,25 +284,25 @@ Proof.
       destruct (creation_owner g w e en SC Hign (negb s) k' ob' Ec Ho' Hob' FO') as (X & _).
       rewrite negb_involutive in X. congruence. }
     rewrite Hnc in H. cbn [andb] in H.
-    destruct (delete_pres g w e en s k w1 cs rs SC Hign Ex Ho H) as (Hrs & en3 & SC3 & Hd3 & Hgx3).
-    subst rs. exists en3. split; [exact SC3|]. split; [intros; apply Hgx3|].
+    destruct (delete_pres g w e en s k w1 cs rs SC Hign Ex Ho H) as (Hrs & en3 & SC3 & Hd3 & Hgx3 & Hown3).
+    subst rs. exists en3. split; [exact SC3|]. split; [intros; apply Hgx3|]. split; [exact Hown3|].
     intros k0 ob0 cs0 _ _ _ _ Hd _. rewrite Hd in Hd3. discriminate.
   - destruct (ex_is (s_ex (gs en s)) ExMissing) eqn:Em; [discriminate|].
     assert (Hgone: ex_in_gone (s_ex (gs en s)) = false) by (destruct (s_ex (gs en s)); simpl in *; congruence).
     rewrite (no_path_change g w e en SC Hign s) in H. cbn [orb] in H.
     destruct (is_creation (cfg_std 1) en s) eqn:Ecr.
     + destruct (handle_path_change_or_creation w e s) as [[[wa csa] rsa]|c] eqn:Eh; [|discriminate]. cbn [rbind] in H.
-      destruct (creation_pres g w e en s wa csa rsa SC Hign Hns Htmp Ecr Hmax Eh) as (en1 & SC1 & Hgx1 & Hres).
+      destruct (creation_pres g w e en s wa csa rsa SC Hign Hns Htmp Ecr Hmax Eh) as (en1 & SC1 & Hgx1 & Hown1 & Hres).
       destruct rsa.
       * destruct Hres as (HJ & Hi1 & Hh1). unfold get_e, lift, get_ent in H. rewrite (sc_en _ _ _ _ SC1) in H. cbn [rbind] in H.
         rewrite Hi1 in H. cbn [is_discarded rbind] in H. rewrite (sc_en _ _ _ _ SC1) in H. cbn [rbind] in H.
         rewrite Hh1, oN_eqb_refl in H. cbn [negb] in H. injection H as <- <- <-.
-        exists en1. split; [exact SC1|]. split; [exact Hgx1|exact HJ].
-      * cbn [rbind] in H. injection H as <- <- <-. exists en1. split; [exact SC1|]. split; [exact Hgx1|exact Hres].
+        exists en1. split; [exact SC1|]. split; [exact Hgx1|]. split; [exact Hown1|exact HJ].
+      * cbn [rbind] in H. injection H as <- <- <-. exists en1. split; [exact SC1|]. split; [exact Hgx1|]. split; [exact Hown1|exact Hres].
       * destruct Hres.
     + cbn [rbind] in H. unfold get_e, lift, get_ent in H. rewrite Hn in H. cbn [rbind] in H.
       destruct (oN_eqb (s_hash (gs en s)) (s_shash (gs en s))) eqn:Eh; cbn [negb] in H.
-      * injection H as <- <- <-. exists en. split; [exact SC|]. split; [auto|].
+      * injection H as <- <- <-. exists en. split; [exact SC|]. split; [auto|]. split; [apply OwnFrame_refl|].
         intros k0 ob0 cs0 Ho0 Hob0 Hpd Hfr Hd Hg0.
         assert (k0 = k) by (apply ostr_k_inj; congruence). subst k0. assert (ob0 = ob) by congruence. subst ob0.
         unfold freshP in Hfr. destruct (ProvModel.o_exists ob) eqn:El; [|congruence].
@@ -286,7 +319,7 @@ Qed.
 Lemma sync_side_pres g w e en s w' cs fl :
   SCtx g w e en -> e_ign en = INone -> notmp w e -> maxchg en <= now (w_st w) ->
   sync_side w e s = ROk (w', cs, fl) ->
-  (forall x sd0, x <> e -> getx w' x sd0 = getx w x sd0) /\ notmp w' e /\
+  (forall x sd0, x <> e -> getx w' x sd0 = getx w x sd0) /\ notmp w' e /\ OwnFrame g w w' /\
   match fl with
   | Continue => exists en', SCtx g w' e en' /\ e_ign en' = INone /\ maxchg en' <= now (w_st w')
   | Break _ => Inv g w'
@@ -305,9 +338,10 @@ Proof.
         pose proof Wa as (_ & _ & _ & _ & (_ & _ & Wnow & _) & _).
         assert (Hgx: forall x sd0, getx wa x sd0 = getx w x sd0) by (intros; apply (weff_getx _ _ _ _ _ x sd0 Wa)).
         split; [intros; apply Hgx|]. split; [intros sd; rewrite Hgx; apply Htmp|].
+        split; [apply OwnFrame_prov; intros sd; apply (weff_prov _ _ _ _ _ sd Wa)|].
         exists (clr en s). split; [exact SC1|]. split; [unfold clr; rewrite ign_ss; exact Hign|].
         pose proof (maxchg_clr en s). lia.
-      - injection H as <- <- <-. split; [auto|]. split; [exact Htmp|]. exists en. auto. }
+      - injection H as <- <- <-. split; [auto|]. split; [exact Htmp|]. split; [apply OwnFrame_refl|]. exists en. auto. }
   destruct (needs_sync_parts g w e en SC s Hns) as (Hc & o & Ho).
   destruct (side_obj g w e en SC s o Ho) as (k & ob & n & -> & Hob & Hk2 & FO & Hkf & Hp & Hnok).
   destruct (negb (thash (s_hash (gs en s))) && is_file (gs en s) && ex_is (s_ex (gs en s)) ExExists)%bool eqn:Enh.
@@ -321,21 +355,25 @@ Proof.
       - destruct Hfr as (_ & Fh & _). rewrite Fh in Eh. discriminate.
       - destruct (s_ex (gs en s)); simpl in Hfr, Eex; discriminate. }
     destruct (finished_pres g w e en s wa SC HJ Ef) as (Ia & Hgxa & Hta).
-    split; [exact Hgxa|]. split; [exact Hta|exact Ia]. }
+    split; [exact Hgxa|]. split; [exact Hta|]. split; [apply OwnFrame_prov; apply (finished_prov g w e en s wa I He Hn Ef)|exact Ia]. }
   rewrite Ho in H. cbn [negb andb] in H.
   match type of H with (if ?B then _ else _) = _ => destruct B end.
-  { injection H as <- <- <-. split; [auto|]. split; [exact Htmp|]. exists en. auto. }
+  { injection H as <- <- <-. split; [auto|]. split; [exact Htmp|]. split; [apply OwnFrame_refl|]. exists en. auto. }
   destruct (path_conflict (cfg_std 1) en); [discriminate|].
   destruct (embrace_change w e s) as [[[w1 cs1] rs]|c] eqn:Ee; [|discriminate]. cbn [rbind] in H.
-  destruct (embrace_pres g w e en s w1 cs1 rs SC Hign Hns Htmp Hmax Ee) as (en1 & SC1 & Hgx1 & Hres).
+  destruct (embrace_pres g w e en s w1 cs1 rs SC Hign Hns Htmp Hmax Ee) as (en1 & SC1 & Hgx1 & Hown1 & Hres).
   destruct rs.
   - destruct (AlgoModel.finished w1 e s) as [wa|c] eqn:Ef; [|discriminate]. cbn [rbind] in H. injection H as <- <- <-.
     destruct (finished_pres g w1 e en1 s wa SC1 Hres Ef) as (Ia & Hgxa & Hta).
-    split; [intros x sd0 Hne; rewrite Hgxa by exact Hne; apply Hgx1; exact Hne|]. split; [exact Hta|exact Ia].
+    split; [intros x sd0 Hne; rewrite Hgxa by exact Hne; apply Hgx1; exact Hne|]. split; [exact Hta|].
+    split; [|exact Ia]. apply (OwnFrame_trans g w w1 wa Hown1). apply OwnFrame_prov.
+    apply (finished_prov g w1 e en1 s wa (sc_inv _ _ _ _ SC1) He (sc_en _ _ _ _ SC1) Ef).
   - destruct Hres as (Hm1 & Ht1).
     destruct (punt w1 e) as [wa|c] eqn:Epu; [|discriminate]. cbn [rbind] in H. injection H as <- <- <-.
     destruct (punt_pres g w1 e en1 wa SC1 Hm1 Epu) as (Ia & Hgxa).
-    split; [intros x sd0 Hne; rewrite Hgxa; apply Hgx1; exact Hne|]. split; [intros sd; rewrite Hgxa; apply Ht1|exact Ia].
+    split; [intros x sd0 Hne; rewrite Hgxa; apply Hgx1; exact Hne|]. split; [intros sd; rewrite Hgxa; apply Ht1|].
+    split; [|exact Ia]. apply (OwnFrame_trans g w w1 wa Hown1). apply OwnFrame_prov.
+    apply (punt_prov g w1 e en1 wa (sc_inv _ _ _ _ SC1) (sc_en _ _ _ _ SC1) Epu).
   - destruct Hres.
 Qed.
 
@@ -343,7 +381,7 @@ Qed.
 Lemma sync_entry_pres g w e en w' cs :
   SCtx g w e en -> e_ign en = INone -> notmp w e -> maxchg en <= now (w_st w) ->
   sync_entry w e = ROk (w', cs) ->
-  Inv g w' /\ (forall x sd0, x <> e -> getx w' x sd0 = getx w x sd0) /\ notmp w' e.
+  Inv g w' /\ (forall x sd0, x <> e -> getx w' x sd0 = getx w x sd0) /\ notmp w' e /\ OwnFrame g w w'.
 Proof.
   intros SC Hign Htmp Hmax H.
   pose proof (sc_en _ _ _ _ SC) as Hn.
@@ -352,14 +390,14 @@ Proof.
   destruct (hash_conflict en); [discriminate|].
   set (first := N.ltb (chgval (s_chg (e_r en))) (chgval (s_chg (e_l en)))) in H.
   destruct (sync_side w e first) as [[[w1 cs1] f1]|c] eqn:E1; [|discriminate]. cbn [rbind] in H.
-  destruct (sync_side_pres g w e en first w1 cs1 f1 SC Hign Htmp Hmax E1) as (Hgx1 & Ht1 & Hres1).
+  destruct (sync_side_pres g w e en first w1 cs1 f1 SC Hign Htmp Hmax E1) as (Hgx1 & Ht1 & Hown1 & Hres1).
   destruct f1.
   - destruct Hres1 as (en1 & SC1 & Hi1 & Hm1).
     destruct (sync_side w1 e (negb first)) as [[[w2 cs2] f2]|c] eqn:E2; [|discriminate]. cbn [rbind] in H. injection H as <- <-.
-    destruct (sync_side_pres g w1 e en1 (negb first) w2 cs2 f2 SC1 Hi1 Ht1 Hm1 E2) as (Hgx2 & Ht2 & Hres2).
-    split; [|split; [intros x sd0 Hne; rewrite Hgx2 by exact Hne; apply Hgx1; exact Hne|exact Ht2]].
+    destruct (sync_side_pres g w1 e en1 (negb first) w2 cs2 f2 SC1 Hi1 Ht1 Hm1 E2) as (Hgx2 & Ht2 & Hown2 & Hres2).
+    split; [|split; [intros x sd0 Hne; rewrite Hgx2 by exact Hne; apply Hgx1; exact Hne|split; [exact Ht2|apply (OwnFrame_trans g w w1 w2 Hown1 Hown2)]]].
     destruct f2; [destruct Hres2 as (en2 & SC2 & _); exact (sc_inv _ _ _ _ SC2)|exact Hres2].
-  - injection H as <- <-. split; [exact Hres1|]. split; [exact Hgx1|exact Ht1].
+  - injection H as <- <-. split; [exact Hres1|]. split; [exact Hgx1|]. split; [exact Ht1|exact Hown1].
 Qed.
 
 (* ------------------------------------------------------------------ steps that touch the clock or the dirty set only *)
@@ -418,7 +456,7 @@ Proof. intros I. unfold tick. cbn [fst]. apply Inv_st; try reflexivity; try assu
 Lemma pre_sync_pres g w e en w' done :
   Inv g w -> (2 <= e)%nat -> nth_error (ents (w_st w)) e = Some en -> notmp w e -> maxchg en <= now (w_st w) ->
   pre_sync w e = ROk (w', done) ->
-  (forall x sd0, x <> e -> getx w' x sd0 = getx w x sd0) /\ notmp w' e /\
+  (forall x sd0, x <> e -> getx w' x sd0 = getx w x sd0) /\ notmp w' e /\ (forall sd, prov_of w' sd = prov_of w sd) /\
   if done then Inv g w' else exists en', SCtx g w' e en' /\ e_ign en' = INone /\ maxchg en' <= now (w_st w').
 Proof.
   intros I He Hn Htmp Hmax H.
@@ -431,7 +469,7 @@ Proof.
     destruct (get_latest_both (real_evl w) g w e w1 I He Hnd Eg) as (I1 & R1 & R2 & Hp & Hgx & (en0 & en1 & Hn0 & Hn1 & Hi1 & Hm1) & Hnow).
     destruct (get_latest_pres (real_evl w) g w e false _ w1 I He Eg) as (_ & _ & _ & _ & Htf).
     assert (en0 = en) by congruence. subst en0.
-    split; [exact Hgx|]. split; [intros sd; rewrite Htf; apply Htmp|].
+    split; [exact Hgx|]. split; [intros sd; rewrite Htf; apply Htmp|]. split; [exact Hp|].
     exists en1. split; [|split; [congruence|lia]].
     constructor; [|exact He|exact Hn1|].
     + unfold Inv. apply (InvP_ext (real_evl w)); [intros sd; unfold real_evl; rewrite Hp; reflexivity|exact I1].
@@ -451,7 +489,8 @@ Proof.
     destruct (finished_pres0 g wa e ena true wb Ia He Hna) with (3 := Efb) as (Ib & Hgxb & Htb & Hpb & enb & Hnb & Sb).
     { intros X. rewrite Hda in X. discriminate. }
     { intros k ob cs _ _ _ _ X. rewrite Hda in X. discriminate. }
-    split; [intros x sd0 Hne; rewrite Hgxb by exact Hne; apply Hgxa; exact Hne|]. split; [exact Htb|exact Ib].
+    split; [intros x sd0 Hne; rewrite Hgxb by exact Hne; apply Hgxa; exact Hne|]. split; [exact Htb|].
+    split; [intros sd; rewrite Hpb; apply Hpa|exact Ib].
 Qed.
 
 (* ------------------------------------------------------------------ SyncState.change: the path-filling loop *)
@@ -466,7 +505,7 @@ Proof.
 Qed.
 
 Lemma fill_one_pres g w e sd w' : Inv g w -> (2 <= e)%nat -> fill_one w e sd = ROk w' ->
-  Inv g w' /\ (forall x sd0, x_tfile (getx w' x sd0) = x_tfile (getx w x sd0)).
+  Inv g w' /\ (forall x sd0, x_tfile (getx w' x sd0) = x_tfile (getx w x sd0)) /\ (forall sd0, prov_of w' sd0 = prov_of w sd0).
 Proof.
   intros I He H. unfold fill_one in H. unfold get_e, lift, get_ent in H.
   destruct (nth_error (ents (w_st w)) e) as [en|]; [|discriminate]. cbn [rbind] in H.
@@ -474,21 +513,22 @@ Proof.
   - destruct (get_latest_pres (real_evl w) g w e false [sd] w' I He H) as (I1 & Hp & Hgx & _ & Htf).
     split.
     + unfold Inv. apply (InvP_ext (real_evl w)); [intros sd0; unfold real_evl; rewrite Hp; reflexivity|exact I1].
-    + intros x sd0. destruct (Nat.eq_dec x e) as [->|Hne]; [apply Htf|rewrite Hgx by exact Hne; reflexivity].
+    + split; [|exact Hp]. intros x sd0. destruct (Nat.eq_dec x e) as [->|Hne]; [apply Htf|rewrite Hgx by exact Hne; reflexivity].
   - injection H as <-. auto.
 Qed.
 
 Lemma fill_paths_pres g : forall order w w', Inv g w -> Forall (fun e => (2 <= e)%nat) order -> fill_paths w order = ROk w' ->
-  Inv g w' /\ (forall x sd0, x_tfile (getx w' x sd0) = x_tfile (getx w x sd0)).
+  Inv g w' /\ (forall x sd0, x_tfile (getx w' x sd0) = x_tfile (getx w x sd0)) /\ (forall sd0, prov_of w' sd0 = prov_of w sd0).
 Proof.
   induction order as [|e r IH]; intros w w' I Hall H.
   - simpl in H. injection H as <-. auto.
   - simpl in H. inversion Hall as [|? ? He Hr]; subst.
     destruct (fill_one w e false) as [w1|c] eqn:E1; [|discriminate]. cbn [rbind] in H.
     destruct (fill_one w1 e true) as [w2|c] eqn:E2; [|discriminate]. cbn [rbind] in H.
-    destruct (fill_one_pres g w e false w1 I He E1) as (I1 & T1).
-    destruct (fill_one_pres g w1 e true w2 I1 He E2) as (I2 & T2).
-    destruct (IH w2 w' I2 Hr H) as (I3 & T3). split; [exact I3|]. intros x sd0. rewrite T3, T2, T1. reflexivity.
+    destruct (fill_one_pres g w e false w1 I He E1) as (I1 & T1 & P1).
+    destruct (fill_one_pres g w1 e true w2 I1 He E2) as (I2 & T2 & P2).
+    destruct (IH w2 w' I2 Hr H) as (I3 & T3 & P3). split; [exact I3|]. split; [intros x sd0; rewrite T3, T2, T1; reflexivity|].
+    intros sd0. rewrite P3, P2, P1. reflexivity.
 Qed.
 
 (* ------------------------------------------------------------------ SyncManager.do: one sync step *)
@@ -500,23 +540,26 @@ Proof.
 Qed.
 
 Theorem sync_step_pres g w order w' cs :
-  Inv g w -> NoTmp w -> sync_step w order = ROk (w', cs) -> Inv g w' /\ NoTmp w'.
+  Inv g w -> NoTmp w -> sync_step w order = ROk (w', cs) -> Inv g w' /\ NoTmp w' /\ OwnFrame g w w'.
 Proof.
   intros I T H. unfold sync_step in H.
-  destruct (cset (w_st w)) as [|c0 cr] eqn:Ecs; [injection H as <- <-; auto|]. rewrite <- Ecs in H.
+  destruct (cset (w_st w)) as [|c0 cr] eqn:Ecs; [injection H as <- <-; split; [exact I|split; [exact T|apply OwnFrame_refl]]|]. rewrite <- Ecs in H.
   set (ord := norm_order order (cset (w_st w))) in H.
   assert (Hord: Forall (fun e => (2 <= e)%nat) ord).
   { apply Forall_forall. intros x Hx. apply norm_order_mem in Hx.
     destruct (i_roots _ _ _ I) as (e0 & e1 & _ & _ & _ & _ & _ & _ & _ & _ & _ & _ & _ & _ & _ & M0 & M1).
     destruct x as [|[|x]]; [congruence|congruence|lia]. }
   destruct (fill_paths w ord) as [w1|c] eqn:Ef; [|discriminate]. cbn [rbind] in H.
-  destruct (fill_paths_pres g ord w w1 I Hord Ef) as (I1 & T1).
+  destruct (fill_paths_pres g ord w w1 I Hord Ef) as (I1 & T1 & P1).
+  assert (O2: OwnFrame g w (fst (tick w1))).
+  { apply OwnFrame_prov. intros sd. unfold tick. cbn [fst]. rewrite prov_of_with_st. apply P1. }
   assert (Htick: tick w1 = (fst (tick w1), now (w_st w1) + 1000)) by reflexivity.
   rewrite Htick in H.
   pose proof (Inv_tick g w1 I1) as I2. set (w2 := fst (tick w1)) in *.
   assert (Hnow2: now (w_st w2) = now (w_st w1) + 1000) by reflexivity.
   assert (T2: NoTmp w2) by (intros x sd0; change (getx w2 x sd0) with (getx w1 x sd0); rewrite T1; apply T).
   destruct (pick (w_st w2) ord (now (w_st w1) + 1000)) as [e|] eqn:Ep; [|injection H as <- <-; auto].
+  fold w2 in O2.
   assert (He: (2 <= e)%nat) by (apply (proj1 (Forall_forall _ _) Hord); apply (pick_in _ _ _ _ Ep)).
   destruct (pre_sync w2 e) as [[w3 done]|c] eqn:Eps; [|discriminate]. cbn [rbind] in H.
   destruct (nth_error (ents (w_st w2)) e) as [en|] eqn:Hn.
@@ -524,17 +567,21 @@ Proof.
   assert (Hmax: maxchg en <= now (w_st w2)).
   { assert (Hn1: nth_error (ents (w_st w1)) e = Some en) by exact Hn.
     destruct (i_clke _ _ _ I1 e en Hn1) as (A & _). lia. }
-  destruct (pre_sync_pres g w2 e en w3 done I2 He Hn (T2 e) Hmax Eps) as (Hgx3 & Ht3 & Hres).
+  destruct (pre_sync_pres g w2 e en w3 done I2 He Hn (T2 e) Hmax Eps) as (Hgx3 & Ht3 & P3 & Hres).
+  assert (O3: OwnFrame g w w3) by (apply (OwnFrame_trans g w w2 w3 O2); apply OwnFrame_prov; exact P3).
   assert (T3: NoTmp w3).
   { intros x sd0. destruct (Nat.eq_dec x e) as [->|Hne]; [apply Ht3|rewrite Hgx3 by exact Hne; apply T2]. }
   destruct done.
-  - injection H as <- <-. split; [apply Inv_commit; exact Hres|exact T3].
+  - injection H as <- <-. split; [apply Inv_commit; exact Hres|]. split; [exact T3|].
+    intros sd k cs0 Hg. pose proof (O3 sd k cs0 Hg) as X3. unfold obj_at in *. rewrite prov_of_commit. exact X3.
   - destruct Hres as (en3 & SC3 & Hi3 & Hm3).
     destruct (sync_entry w3 e) as [[w4 cs4]|c] eqn:Ese; [|discriminate]. cbn [rbind] in H. injection H as <- <-.
-    destruct (sync_entry_pres g w3 e en3 w4 cs4 SC3 Hi3 Ht3 Hm3 Ese) as (I4 & Hgx4 & Ht4).
-    split; [apply Inv_commit; exact I4|].
-    intros x sd0. change (getx (commit w4) x sd0) with (getx w4 x sd0).
-    destruct (Nat.eq_dec x e) as [->|Hne]; [apply Ht4|rewrite Hgx4 by exact Hne; apply T3].
+    destruct (sync_entry_pres g w3 e en3 w4 cs4 SC3 Hi3 Ht3 Hm3 Ese) as (I4 & Hgx4 & Ht4 & O4).
+    split; [apply Inv_commit; exact I4|]. split.
+    + intros x sd0. change (getx (commit w4) x sd0) with (getx w4 x sd0).
+      destruct (Nat.eq_dec x e) as [->|Hne]; [apply Ht4|rewrite Hgx4 by exact Hne; apply T3].
+    + intros sd k cs0 Hg. pose proof (O3 sd k cs0 Hg) as X3. pose proof (O4 sd k cs0 Hg) as X4.
+      unfold obj_at in *. rewrite prov_of_commit. congruence.
 Qed.
 
 (* event intake does not touch the temp files *)
@@ -562,14 +609,41 @@ Proof.
   rewrite (process_events_wx _ _ _ _ H). unfold with_prov. destruct sd; reflexivity.
 Qed.
 
+Lemma st_op_prov w f w' sd : st_op w f = ROk w' -> prov_of w' sd = prov_of w sd.
+Proof. unfold st_op. destruct (f _); [intros H; injection H as <-; apply prov_of_with_st|discriminate]. Qed.
+
+Lemma process_event_prov w sd ev w' sd0 : process_event w sd ev = ROk w' -> prov_of w' sd0 = prov_of w sd0.
+Proof.
+  unfold process_event. destruct (oip_of (w_cfg w) sd || c_filt (w_cfg w))%bool; [discriminate|].
+  match goal with |- (rbind ?A _) = _ -> _ => destruct A as [[]|c]; [|discriminate] end. cbn [rbind].
+  match goal with |- (rbind ?A _) = _ -> _ => destruct A as [w1|c] eqn:E1; [|discriminate] end. cbn [rbind].
+  intros H. injection H as <-. rewrite prov_of_commit. apply (st_op_prov _ _ _ _ E1).
+Qed.
+
+Lemma process_events_prov sd sd0 : forall l w w', process_events w sd l = ROk w' -> prov_of w' sd0 = prov_of w sd0.
+Proof.
+  induction l as [|ev r IH]; intros w w' H; simpl in H; [injection H as <-; reflexivity|].
+  destruct (process_event w sd ev) as [w1|c] eqn:E1; [|discriminate]. cbn [rbind] in H.
+  rewrite (IH _ _ H). apply (process_event_prov _ _ _ _ _ E1).
+Qed.
+
+Lemma intake_heap w sd w' : intake w sd = ROk w' -> forall sd0, ProvModel.p_heap (prov_of w' sd0) = ProvModel.p_heap (prov_of w sd0).
+Proof.
+  unfold intake. unfold ProvModel.read_events. intros H sd0.
+  destruct (Nat.leb (ProvModel.p_cursor (prov_of w sd)) (length (ProvModel.p_log (prov_of w sd)))).
+  - rewrite (process_events_prov _ sd0 _ _ _ H). unfold with_prov. destruct sd, sd0; reflexivity.
+  - rewrite (process_events_prov _ sd0 _ _ _ H). unfold with_prov. destruct sd, sd0; reflexivity.
+Qed.
+
 (* one engine action *)
 Theorem engine_step_pres g w a w' cs :
-  Inv g w -> NoTmp w -> (forall sd o, a <> AUser sd o) -> algo_step w a = ROk (w', cs) -> Inv g w' /\ NoTmp w'.
+  Inv g w -> NoTmp w -> (forall sd o, a <> AUser sd o) -> algo_step w a = ROk (w', cs) -> Inv g w' /\ NoTmp w' /\ OwnFrame g w w'.
 Proof.
   intros I T Ha H. destruct a as [sd o|sd clk|order clk]; [exfalso; apply (Ha sd o); reflexivity| |].
   - simpl in H. destruct (intake (at_clock w clk) sd) as [w1|c] eqn:Ei; [|discriminate]. cbn [rbind] in H. injection H as <- <-.
-    split; [apply (intake_pres g _ sd w1 (Inv_at_clock g w clk I) Ei)|].
-    intros x sd0. unfold getx. rewrite (intake_wx _ _ _ Ei). apply (T x sd0).
-  - simpl in H. apply (sync_step_pres g _ order w' cs (Inv_at_clock g w clk I)); [|exact H].
-    intros x sd0. apply T.
+    split; [apply (intake_pres g _ sd w1 (Inv_at_clock g w clk I) Ei)|]. split.
+    + intros x sd0. unfold getx. rewrite (intake_wx _ _ _ Ei). apply (T x sd0).
+    + intros sd0 k cs0 _. unfold obj_at. rewrite (intake_heap _ _ _ Ei sd0). unfold at_clock. rewrite prov_of_with_st. reflexivity.
+  - simpl in H. destruct (sync_step_pres g _ order w' cs (Inv_at_clock g w clk I)) with (2 := H) as (A & B & C); [intros x sd0; apply T|].
+    split; [exact A|]. split; [exact B|]. intros sd k cs0 Hg. rewrite (C sd k cs0 Hg). unfold obj_at, at_clock. rewrite prov_of_with_st. reflexivity.
 Qed.
